@@ -19,6 +19,7 @@ func genAll() {
 	genClone()
 	genData()
 	genApply()
+	genDecNode()
 }
 
 // ---------------------------------------------------------------------------------
